@@ -8,7 +8,6 @@ FcEvaluator subclass whose evaluate_9xx methods return (False, None), so that th
 messages.  Oracle: Boolean evaluation of the AST; error message present iff unfulfilled.
 """
 
-import copy
 import itertools
 
 from hypothesis import strategies as st
@@ -78,7 +77,23 @@ def _plain_evaluator(truth, yielding=False):
     others = [DictBasedRcEvaluator({}), DictBasedHintsProvider({}), DictBasedPackageResolver({})]
     for other in others:
         other.edifact_format, other.edifact_format_version = sut.FMT, sut.VER
-    return [Plain()] + others
+    evaluator = Plain()
+
+    # a second evaluator for another EDIFACT format is registered next to it (one evaluator per format is the normal
+    # set-up); it implements the same keys with the opposite verdicts and must never be asked for UTILMD data
+    from efoli import EdifactFormat
+
+    class Decoy(FcEvaluator):
+        edifact_format = EdifactFormat.MSCONS
+        edifact_format_version = sut.VER
+
+    for key, value in truth.items():
+
+        def wrong(self, entered_input, value=value):  # pylint:disable=unused-argument
+            return EvaluatedFormatConstraint(not value, None if value else "decoy")
+
+        setattr(Decoy, f"evaluate_{key}", wrong)
+    return [evaluator, Decoy()] + others
 
 
 def _verdict(result, fulfilled_attr):
@@ -94,11 +109,10 @@ def check(case):
     units = []
     depth = ref.depth_of(ast)
     kinds = {n[0] for _, n in ref.sites(ast) if not ref.is_atom(n)}
-    # parse once, evaluate under every truth assignment (building a truth table): the tree must stay what it was
+    # parse once, evaluate under every truth assignment (building a truth table)
     parsed = sut.call(api.parse_cond, text)
     if not parsed.ok:
         fail("parse", f"well-formed expression {text!r} was not parsed: {parsed!r}")
-    pristine = copy.deepcopy(parsed.value)
     for combo in itertools.product([True, False], repeat=len(keys)):
         truth = dict(zip(keys, combo))
         expected = ref.bool_eval(ast, truth)
@@ -122,8 +136,6 @@ def check(case):
                      f"but error_message = {message!r}")  # fmt: skip
             if message is not None and not isinstance(message, str):
                 fail("message-iff-unfulfilled", f"{name}: error_message {message!r} is not a string")
-        if parsed.value != pristine:
-            fail("tree-modified", f"evaluate_format_constraint_tree modified the tree of {text!r} that was passed in")
         units.append(([text, truth], depth >= 2 and len(kinds) >= 2 and len(set(combo)) == 2))
     return {"_units": units}
 
